@@ -1,5 +1,11 @@
 import LyModel.Props.C05Fn
+import LyModel.Props.C01FnPrint
 #print axioms LyModel.Props.C05Fn.gen_utf8_are_model
 #print axioms LyModel.Props.C05Fn.gen_getutf8_stops_at_nul
 #print axioms LyModel.Bridge.Utf8.getutf8_eq
 #print axioms LyModel.Bridge.Utf8.pututf8_eq
+#print axioms LyModel.Props.C01FnPrint.gen_printers_are_model
+#print axioms LyModel.Props.C01FnPrint.gen_xml_roundtrip
+#print axioms LyModel.Props.C01FnPrint.gen_json_roundtrip
+#print axioms LyModel.Bridge.Print.xml_dump_text_eq
+#print axioms LyModel.Bridge.Print.json_print_string_eq
